@@ -1,7 +1,7 @@
 (** C08 — task requests: one effective answer, declared results stored, error modes kept.
     Model: Model/TaskAnswer.v (Do/process protocol, declared-only filtering, error-mode switch). *)
 From BV Require Import Model.TaskAnswer Proofs.TaskAnswerProofs.
-From BV Require Import Model.TokenNumbers Proofs.TokenNumbersProofs.
+From BV Require Import Model.TokenNumbers Proofs.TokenNumbersProofs Gen.Facts.
 Open Scope nat_scope.
 
 (* FIRST WINS — for every number of callers and every interleaving of their done-checks and sends
@@ -76,6 +76,21 @@ Print Assumptions C08_retry_bound.
 Theorem C08_retry_unbounded : forall k, is_continue (-1) k = true.
 Proof. exact retry_unbounded. Qed.
 Print Assumptions C08_retry_unbounded.
+
+(* THE ANSWER AS THE HOST GIVES IT (TaskAnswer.v section 4): an error or none, and possibly a handler channel. In the
+   variant the sources show (src_handler_read_only_on_error) an answer without error is a success whatever handler comes
+   along with it -- one request, no error trace, the token continues -- at any point of a retry history ... *)
+Theorem C08_success_ignores_a_handler : forall h attempts rest,
+  token attempts (interpret src_handler_read_only_on_error (false, h) :: rest) = (1%nat, 0%nat, Continues).
+Proof. exact success_ignores_handler. Qed.
+Print Assumptions C08_success_ignores_a_handler.
+(* ... a handler obeyed whenever it is there stops the token of a successful answer ("exit" queued) or has the answered
+   task requested again ("retry" queued) *)
+Theorem C08_success_refuted_when_the_handler_is_always_obeyed :
+  token 0 [interpret false (false, Some HExit)] = (1%nat, 1%nat, Ended) /\
+  token 0 [interpret false (false, Some (HRetry 2)); interpret false (false, None)] = (2%nat, 1%nat, Continues).
+Proof. exact refuted_handler_obeyed_on_success. Qed.
+Print Assumptions C08_success_refuted_when_the_handler_is_always_obeyed.
 
 Example C08_nonvacuous :
   token 0 [AErrRetry 2; AErrRetry 2; AOk] = (3%nat, 2%nat, Continues) /\
